@@ -556,4 +556,33 @@ b("c18-subsumes-no-deref", "C18", FSF,
 b("c18-unify-no-recursion", "C18", FSF,
   "                current_dereferenced.content[feature].unify(other_dereferenced.content[feature])\n", "", "unify-recurses-and-creates")
 
+# ----------------------------------------------------------------------------- C20
+FAF = FA + "finite_automaton.py"
+b("c20-fa-reader-wrong-key", "C20", FAF,
+  "            if graph.nodes[node].get(\"is_final\", False):\n                enfa.add_final_state(node)",
+  "            if graph.nodes[node].get(\"final\", False):\n                enfa.add_final_state(node)", "attributes-read-are-written:EpsilonNFA")
+b("c20-pda-separator", "C20", PDAF,
+  "                label=(json.dumps(in_symbol.value) + \" -> \" +", "                label=(json.dumps(in_symbol.value) + \" => \" +",
+  "separators-agree:PDA")
+b("c20-fst-no-dumps", "C20", FSTF,
+  "                    label=(json.dumps(input_symbol) + \" -> \" +\n                           json.dumps(output_symbols)))",
+  "                    label=(str(input_symbol) + \" -> \" +\n                           json.dumps(output_symbols)))", "json-fields-agree:FST")
+b("c20-eps-spelling", "C20", FAF,
+  "            if label_ == 'epsilon':\n                label_ = 'ɛ'", "            if label_ == 'epsilon':\n                label_ = 'ε'",
+  "epsilon-spelling-accepted")
+b("c20-hidden-node-renamed", "C20", PDAF,
+  "        if \"INITIAL_STACK_HIDDEN\" in graph.nodes:\n            pda.set_start_stack_symbol(\n                json.loads(graph.nodes[\"INITIAL_STACK_HIDDEN\"][\"label\"]))",
+  "        if \"INITIAL_STACK\" in graph.nodes:\n            pda.set_start_stack_symbol(\n                json.loads(graph.nodes[\"INITIAL_STACK\"][\"label\"]))",
+  "hidden-stack-node-name-agrees")
+b("c20-var-marker", "C20", "pyformlang/cfg/variable.py",
+  "            return '\"VAR:' + text + '\"'", "            return '\"NT:' + text + '\"'", "markers-agree")
+b("c20-ebnf-concat-alternatives", "C20", "pyformlang/rsa/recursive_automaton.py",
+  "                productions[head] += \" | \" + body", "                productions[head] += \" \" + body", "alternatives-joined-by-union")
+b("c20-ebnf-no-minimize", "C20", "pyformlang/rsa/recursive_automaton.py",
+  "            boxes.add(Box(Regex(body).to_epsilon_nfa().minimize(),", "            boxes.add(Box(Regex(body).to_epsilon_nfa(),",
+  "box=minimised-regex-automaton")
+p("c20-p-reader-order", "C20", FAF,
+  "            if graph.nodes[node].get(\"is_start\", False):\n                enfa.add_start_state(node)\n            if graph.nodes[node].get(\"is_final\", False):\n                enfa.add_final_state(node)\n        return enfa",
+  "            attrs = graph.nodes[node]\n            if attrs.get(\"is_final\", False):\n                enfa.add_final_state(node)\n            if attrs.get(\"is_start\", False):\n                enfa.add_start_state(node)\n        return enfa")
+
 VARIANTS = V
